@@ -33,7 +33,8 @@ RULE = (
     "target has direct itemID, source has direct itemID) -> class, else UnknownMosFileType; "
     "ElementTree ParseError -> MosInvalidXML; metamorphic: permuting root children, pretty-printing "
     "and nested decoys never change the outcome.  Non-trivial = not a canonical suite-style file: "
-    "reordered/extra siblings, an EA shape, filter=error, bytes/file source, or damaged text.")
+    "reordered/extra siblings, an EA shape, filter=error, bytes/file source, or damaged text."
+    " Also: str beginning with U+FEFF or carrying a foreign encoding declaration; envelopes without messageID / mosID / ncsID; relative file names ('~$doc.mos.xml'); DOCTYPE declarations; documents declaring an encoding the parser cannot decode (the class, or MosInvalidXML - nothing else may escape).")
 ASSUMPTIONS = [
     'at most one recognised message element is a direct child of the root (two would be ambiguous)',
     'a message element with no children at all (not schema-valid) may classify as its class or as UnknownMosFileType',
